@@ -82,10 +82,16 @@ def run(c):
     for _ in range(60 if c.tier == "quick" else 600):
         k = rng.rng(1, 60); r = rng.rng(3, 40); n1 = rng.rng(3, min(r, 9))
         params.append((k, r, n1, rng.rng(1, P - 1)))
+    # every small shape: the construction's special cases (k = 1, 2, 3; N1 = r and N1 < r; rows left with 0 or 1 entries) live here
+    nfull = len(params)
+    for k in range(1, 5):
+        for r in range(3, 13 if c.tier == "quick" else 25):
+            for n1 in range(3, min(r, 6) + 1):
+                params.append((k, r, n1, rng.rng(1, P - 1)))
     reqs, meta = [], []
-    for (k, r, n1, s) in params:
+    for pi, (k, r, n1, s) in enumerate(params):
         for role in (1, 2):
-            for hist in range(3):
+            for hist in (range(3) if pi < nfull else (rng.below(3),)):
                 pre = "-"
                 if hist:
                     pre = ",".join("%d:%d:%d:%d" % (rng.rng(1, 30), rng.rng(3, 20), 3, rng.rng(1, P - 1)) for _ in range(hist))
@@ -159,7 +165,7 @@ def run(c):
     c.cov["evaluations"] = len(reqs)
     c.cov["distinct_nontrivial"] = len(byparam)
     c.cov["traces_validated_against_impl"] = len(midx)
-    c.cov["rule"] = ("(k, r, N1, seed) grid incl. k=1,2, N1=3 and N1=r, rate extremes, seeds 1 and 2^31-2 x {encoder, decoder} x {fresh process state, after 1 or 2 other sessions}; "
+    c.cov["rule"] = ("(k, r, N1, seed) grid incl. every shape with k <= 4, r <= 12 (24 in the thorough tier), N1 <= 6, k=1,2, N1=3 and N1=r, rate extremes, seeds 1 and 2^31-2 x {encoder, decoder} x {fresh process state, after 1 or 2 other sessions}; "
                      "distinct = distinct parameter sets; every request builds a matrix (non-trivial)")
     c.cov["samples"] = [reqs[0], reqs[len(reqs) // 2], reqs[-1]]
     c.trusted = vlib.BASE_TRUST + ["Pchk.v: hand-written mirror of of_create_pchck_matrix_rfc5170_compliant over Sparse.v and the generated PRNG; tools/props/C05.py rfc5170_matrix: a second, independent transcription of RFC 5170's pseudo-code (from the RFC's text as I know it; the RFC itself is not available offline) compared with every C matrix"]
